@@ -164,6 +164,16 @@ def run(rep, tier):
         c2.update(MODES[1])
         ad.append(c2)
     plan.append(('rejection scripts (scripted estimates), canonical schedule', ad, 0))
+    # (2b) the shipped embedded error estimators (standard and linearized flavour), nothing scripted
+    real = []
+    for P in (2, 3):
+        for flavor in ('standard', 'linearized'):
+            for tol in (1e-3, 1e-5):
+                for m in MODES[:2]:
+                    c = mh.default_cfg(kind='time', P=P, nsteps=2 * P + 1, maxiter=3, jac=False, restol=-1.0, dt=0.2, adaptive={'e_tol': tol, 'embedded_error_flavor': flavor}, real_estimate=True, restarting={'max_restarts': 3})
+                    c.update(m)
+                    real.append(c)
+    plan.append(('real embedded error estimators (standard / linearized flavour), canonical schedule', real, 0))
     # (3) all schedules with <= 1 deviation on the base configurations (thorough: <= 2 on the smallest)
     sched = []
     for name in BASES:
